@@ -132,18 +132,8 @@ type immutFn struct {
 // expression rooted at the input object with one rooted at an output: the write then happens only when the
 // caller passed the same object as input and output, which is the permitted aliasing.
 func identityGuarded(info *types.Info, pm map[ast.Node]ast.Node, n ast.Node, in types.Object, outs map[types.Object]bool, aliases map[types.Object][]ast.Expr) bool {
-	var child ast.Node = n
-	for p := pm[child]; p != nil; child, p = p, pm[p] {
-		is, ok := p.(*ast.IfStmt)
-		if !ok || is.Body != child {
-			continue
-		}
-		found := false
-		ast.Inspect(is.Cond, func(x ast.Node) bool {
-			be, ok := x.(*ast.BinaryExpr)
-			if !ok || be.Op.String() != "==" {
-				return true
-			}
+	for _, h := range holdsAt(pm, n) {
+		for _, be := range equalitiesOf(h.cond, h.pos) {
 			sideHas := func(e ast.Expr, want func(types.Object) bool) bool {
 				for _, r := range rootsOf(info, e, aliases, 0) {
 					if want(r.obj) {
@@ -155,12 +145,8 @@ func identityGuarded(info *types.Info, pm map[ast.Node]ast.Node, n ast.Node, in 
 			isIn := func(o types.Object) bool { return o == in }
 			isOut := func(o types.Object) bool { return outs[o] }
 			if (sideHas(be.X, isIn) && sideHas(be.Y, isOut)) || (sideHas(be.Y, isIn) && sideHas(be.X, isOut)) {
-				found = true
+				return true
 			}
-			return true
-		})
-		if found {
-			return true
 		}
 	}
 	return false
